@@ -13,7 +13,8 @@ WriteViol(e) ==
         want == ExpectedBits(logOn, a, e.out.wrote)
         got == ToSet(e.out.newbits)
         tag == IF r \in late THEN "/region-mapped-after-set-log-base" ELSE "" IN
-    (IF want \ got # {} THEN {"C15/write-not-logged" \o tag} ELSE {})
+    (IF e.out.panicked THEN {"C15/write-panics-while-logging" \o tag} ELSE {})
+    \cup (IF want \ got # {} /\ ~e.out.panicked THEN {"C15/write-not-logged" \o tag} ELSE {})
     \cup (IF got \ want # {} THEN {"C15/bits-set-for-untouched-pages" \o tag} ELSE {})
     \cup (IF e.out.cleared THEN {"C15/log-bit-cleared"} ELSE {})
     \cup (IF ~e.out.guard_ok THEN {"C15/memory-outside-the-log-window-modified"} ELSE {})
